@@ -221,7 +221,7 @@ Definition b_insert (b : builder) (bs : key) (v : N) : builder * res unit :=
 
 (* into_inner: the complete file (all chunks in write order, then the 4 checksum bytes).
    [summer] = masked checksum of the bytes written through the counting writer. *)
-Definition b_finish (summer : list N -> N) (b : builder) : res (list N) :=
+Definition b_finish_full (summer : list N -> N) (b : builder) : res (list N * (N * N * N * N)) :=
   let '(b1, r) := compile_from b O in
   match r with
   | Ok _ =>
@@ -235,7 +235,7 @@ Definition b_finish (summer : list N -> N) (b : builder) : res (list N) :=
         | Ok root_addr =>
           let b3 := b_write b2 [u64_le (b_len b2); u64_le root_addr] in
           let body := concat (rev (b_out b3)) in
-          Ok (body ++ (if 3 <=? b_version b3 then u32_le (summer body) else []))
+          Ok (body ++ (if 3 <=? b_version b3 then u32_le (summer body) else []), b_stats b3)
         | Err x => Err x
         | Panic => Panic
         end
@@ -245,6 +245,9 @@ Definition b_finish (summer : list N -> N) (b : builder) : res (list N) :=
   | Err x => Err x
   | Panic => Panic
   end.
+
+Definition b_finish (summer : list N -> N) (b : builder) : res (list N) :=
+  match b_finish_full summer b with Ok x => Ok (fst x) | Err e => Err e | Panic => Panic end.
 
 (* ---------- front ends ---------- *)
 Inductive op := OpInsert (k : key) (v : N) | OpAdd (k : key).
